@@ -1,7 +1,9 @@
 # Helpers shared by the device-level bulk-endpoint harnesses C11 and C14: a Host whose every cycle also carries the
 # inputs of an application-side driver (stream producer / consumer living next to the USB device), and a tagged
 # byte-stream producer.
-from rtlmc.env.usb2_host import Host, K
+from rtlmc.env.usb2_host import Host, PruneCollision, K
+
+QUIET_CHUNK = 24        # idle cycles per step of the search for the idle fixed point (the inter-packet timers saturate)
 
 
 class DrivenHost(Host):
@@ -23,41 +25,83 @@ class DrivenHost(Host):
         return o
 
     def tick(self, cur, **kw):
-        """one cycle without bus traffic.  line_state=K keeps the suspend timer of the reset sequencer at zero, so any
-        number of ticks leads back to the same DUT state (the bus-idle timer is not part of the properties checked)."""
-        return self._cyc(cur, line_state=K, **kw)
+        """one cycle without bus traffic.  line_state=K keeps the suspend timer of the reset sequencer at zero, so
+        idle time does not distinguish DUT states (the bus-idle timer is not part of the properties checked)."""
+        o = self._cyc(cur, line_state=K, **kw)
+        if o.tx_valid: raise PruneCollision()
+        return o
+
+    def quiet(self, cur):
+        """A long bus-idle period: first lets the driver finish what it is doing (cycle by cycle), then holds the inputs
+        until the free-running inter-packet timers have saturated and the DUT is in a state that further idle time does
+        not change (checked: one more cycle leaves the state bytes unchanged)."""
+        d = self.driver
+        if d is not None:
+            prev = None
+            for _ in range(400):
+                o = self.tick(cur)
+                if not d.busy() and o == prev: break
+                prev = o
+            else:
+                raise AssertionError("driver / application-side outputs never became idle")
+        kw = dict(line_state=K)
+        if d is not None: kw.update(d.inputs())
+        if self.extra: kw = {**self.extra, **kw}
+        for _ in range(64):
+            n, first, last = cur.hold(QUIET_CHUNK, **kw)
+            if last.tx_valid: raise PruneCollision()
+            assert n == QUIET_CHUNK, "observation changed during a bus-idle period with constant inputs"
+            before = cur.state
+            cur.hold(1, **kw)
+            if cur.state == before: break            # fixed point: more idle time changes nothing
+        else:
+            raise AssertionError("DUT state keeps changing during a long bus-idle period")
+        if d is not None: d.observe(last)
 
 
 class Producer:
     """Feeds tagged bytes tags[pos] into a StreamInterface (inputs <pfx>valid/payload/last, observed <pfx>ready).
-    level: valid is presented in every cycle while bytes are left.  last_at: positions that carry `last` when pushed
-    by the level mode; one-shot pushes choose `last` themselves.  Records the positions pushed with last."""
+    level: 0 = valid low; 1 = valid presented in every cycle while bytes are left; k > 1 = becomes 1 after k-1 more cycles.
+    last_at: positions that carry `last` when pushed by the level mode; one-shot pushes (once = 0/1) choose `last`
+    themselves.  Records the positions pushed with last."""
     def __init__(self, tags, pos, lasts, level, last_at=(), flush=0, pfx="s_", flush_name="flush"):
         self.tags, self.pos, self.lasts = tags, pos, lasts
         self.level, self.last_at, self.flush = level, last_at, flush
-        self.once = None                 # None | 0 | 1 : present one byte in the next cycle with this `last`
+        self.once = None
         self.pfx, self.flush_name = pfx, flush_name
         self._presented = None
-        self.accepted_cycles = 0
+        self._moved = True               # something happened in the last cycle (unknown before the first one)
+        self.names = (pfx + "valid", pfx + "payload", pfx + "last", pfx + "ready")
+
+    def clone(self):
+        p = Producer(self.tags, self.pos, self.lasts, self.level, self.last_at, self.flush, self.pfx, self.flush_name)
+        return p
 
     def inputs(self):
-        p = self.pfx
+        nv, np_, nl, _ = self.names
         d = {self.flush_name: self.flush} if self.flush_name else {}
         self._presented = None
-        if self.pos < len(self.tags):
+        self._moved = False
+        if self.level > 1:
+            self.level -= 1
+            self._moved = True
+        elif self.pos < len(self.tags):
             if self.once is not None:
                 self._presented = self.once
             elif self.level:
                 self._presented = 1 if self.pos in self.last_at else 0
         if self._presented is not None:
-            d[p + "valid"] = 1; d[p + "payload"] = self.tags[self.pos]; d[p + "last"] = self._presented
+            d[nv] = 1; d[np_] = self.tags[self.pos]; d[nl] = self._presented
         else:
-            d[p + "valid"] = 0
+            d[nv] = 0
         self.once = None
         return d
 
     def observe(self, o):
-        if self._presented is not None and getattr(o, self.pfx + "ready"):
+        if self._presented is not None and getattr(o, self.names[3]):
             if self._presented: self.lasts = self.lasts + (self.pos,)
             self.pos += 1
-            self.accepted_cycles += 1
+            self._moved = True
+
+    def busy(self):
+        return self._moved
